@@ -103,43 +103,48 @@ Definition rekey (t : gmap path pnode) (s d : path) : gmap path pnode :=
   let rest := filter (fun kv => is_prefix s (fst kv) = false) (map_to_list t) in
   list_to_map (rest ++ map (fun kv => (d ++ drop (length s) (fst kv), snd kv)) moved).
 
-Definition phys_rename (st : physfs) (s d : path) : physfs * res unit :=
-  match lookup_path st s with
-  | Found sn =>
-      match d with
-      | [] => (st, fail EIo)                         (* the root is busy / not empty *)
-      | _ =>
-          match lookup_path st (removelast d) with
-          | Found pn =>
-              match pn_kind pn with
-              | PFile _ => (st, fail EIo)
-              | PDir =>
-                  if is_prefix s d && negb (bool_decide (s = d)) then (st, fail EIo)   (* EINVAL *)
-                  else if bool_decide (s = d) then (st, Ok tt)
-                  else
-                    let go := (set_tree st (touch_dir (touch_dir (rekey (p_tree st) s d) (removelast s)) (removelast d)), Ok tt) in
-                    match p_tree st !! d, pn_kind sn with
-                    | None, _ => go
-                    | Some dn, PFile _ =>
-                        match pn_kind dn with
-                        | PFile _ => (set_tree st (touch_dir (touch_dir (rekey (delete d (p_tree st)) s d) (removelast s)) (removelast d)), Ok tt)
-                        | PDir => (st, fail EIo)      (* EISDIR *)
-                        end
-                    | Some dn, PDir =>
-                        match pn_kind dn with
-                        | PFile _ => (st, fail EIo)   (* ENOTDIR *)
-                        | PDir => match phys_children st d with
-                                  | [] => (set_tree st (touch_dir (touch_dir (rekey (delete d (p_tree st)) s d) (removelast s)) (removelast d)), Ok tt)
-                                  | _ => (st, fail EIo) (* ENOTEMPTY *)
-                                  end
-                        end
-                    end
-              end
-          | other => (st, lres_err other)
-          end
-      end
-  | other => (st, lres_err other)
+(** the kernel resolves the parent directory of the old path, then the parent directory of the new
+    path, and only then looks the old entry up *)
+Definition parent_lookup (st : physfs) (p : path) : option (res unit) :=
+  match p with
+  | [] => Some (fail EIo)                                (* the root is busy *)
+  | _ => match lookup_path st (removelast p) with
+         | Found pn => match pn_kind pn with PDir => None | PFile _ => Some (fail EIo) end
+         | other => Some (lres_err other)
+         end
   end.
+
+Definition phys_rename (st : physfs) (s d : path) : physfs * res unit :=
+  match parent_lookup st s with
+  | Some e => (st, e)
+  | None =>
+  match parent_lookup st d with
+  | Some e => (st, e)
+  | None =>
+  match p_tree st !! s with
+  | None => (st, fail ENotFound)
+  | Some sn =>
+      if is_prefix s d && negb (bool_decide (s = d)) then (st, fail EIo)   (* EINVAL *)
+      else if bool_decide (s = d) then (st, Ok tt)
+      else
+        let go := (set_tree st (touch_dir (touch_dir (rekey (p_tree st) s d) (removelast s)) (removelast d)), Ok tt) in
+        match p_tree st !! d, pn_kind sn with
+        | None, _ => go
+        | Some dn, PFile _ =>
+            match pn_kind dn with
+            | PFile _ => (set_tree st (touch_dir (touch_dir (rekey (delete d (p_tree st)) s d) (removelast s)) (removelast d)), Ok tt)
+            | PDir => (st, fail EIo)      (* EISDIR *)
+            end
+        | Some dn, PDir =>
+            match pn_kind dn with
+            | PFile _ => (st, fail EIo)   (* ENOTDIR *)
+            | PDir => match phys_children st d with
+                      | [] => (set_tree st (touch_dir (touch_dir (rekey (delete d (p_tree st)) s d) (removelast s)) (removelast d)), Ok tt)
+                      | _ => (st, fail EIo) (* ENOTEMPTY *)
+                      end
+            end
+        end
+  end end end.
 
 Definition phys_step (c : fscall) (s : physfs) : physfs * res (pval c) :=
   match c as c return physfs * res (pval c) with
